@@ -502,7 +502,7 @@ func (t *trans) binary(x *ast.BinaryExpr) string {
 		}
 		return "(" + t.expr(x.X) + " " + x.Op.String() + " " + t.expr(x.Y) + ")"
 	case token.REM:
-		if t.isIntExpr(x.X) && t.isIntExpr(x.Y) {
+		if t.isIntExpr(x.X) && (t.isIntExpr(x.Y) || t.untyped(x.Y)) {
 			return "(← goMod " + t.expr(x.X) + " " + t.expr(x.Y) + ")"
 		}
 	case token.QUO:
@@ -522,6 +522,16 @@ func (t *trans) isIntExpr(e ast.Expr) bool {
 	}
 	b, ok := tv.Type.Underlying().(*types.Basic)
 	return ok && b.Info()&types.IsInteger != 0 && b.Kind() != types.Uint8
+}
+
+// untyped: go/types could not type the expression (it comes from a package that is not loaded); the other operand decides
+func (t *trans) untyped(e ast.Expr) bool {
+	tv, ok := t.info.Types[e]
+	if !ok || tv.Type == nil {
+		return true
+	}
+	b, ok := tv.Type.Underlying().(*types.Basic)
+	return ok && b.Kind() == types.Invalid
 }
 
 func (t *trans) isByteExpr(e ast.Expr) bool {
@@ -688,6 +698,11 @@ func (t *trans) call(c *ast.CallExpr) string {
 				s, _ := strconv.Unquote(bl.Value)
 				return "(some " + leanStr(s) + ")"
 			}
+		case "cipher.NewCBCDecrypter":
+			// the decrypter is determined by the block cipher (fixed for the range) and the IV: it is represented by its IV
+			if len(c.Args) == 2 {
+				return t.expr(c.Args[1])
+			}
 		case "bcrypt.CompareHashAndPassword":
 			if len(c.Args) == 2 {
 				pw := c.Args[1]
@@ -769,6 +784,11 @@ func (t *trans) call(c *ast.CallExpr) string {
 					}
 				}
 			}
+		}
+		if f.Sel.Name == "BlockSize" && len(c.Args) == 0 {
+			// the block size of the cipher set up just before the translated range: one unknown of the range
+			t.addExtern("blockSize", "Int")
+			return "env.blockSize"
 		}
 		if f.Sel.Name == "Root" && len(c.Args) == 0 {
 			// the root element of the document parsed just before the translated range: one unknown of the range
@@ -1130,6 +1150,14 @@ func (t *trans) stmt1(o *out, ind int, s ast.Stmt) {
 				o.line(ind, "Outcome.panic "+t.expr(c.Args[0]))
 				return
 			}
+			// mode.CryptBlocks(dst, src): the Env function gives what is written to dst (it may panic: crypto/cipher's preconditions)
+			if sel, ok := c.Fun.(*ast.SelectorExpr); ok && sel.Sel.Name == "CryptBlocks" && len(c.Args) == 2 {
+				if dst, ok := c.Args[0].(*ast.Ident); ok {
+					t.addExtern("cbcDecrypt", "(List UInt8) → (List UInt8) → Outcome (List UInt8)")
+					o.line(ind, t.varName(dst.Name)+" := (← env.cbcDecrypt "+t.expr(sel.X)+" "+t.expr(c.Args[1])+")")
+					return
+				}
+			}
 			// log lines are not part of the behaviour that is modelled
 			if strings.HasSuffix(t.src(c.Fun), ".logger.Printf") || strings.HasSuffix(t.src(c.Fun), ".Logger.Printf") {
 				return
@@ -1446,6 +1474,14 @@ func mutatedVars(body *ast.BlockStmt) map[string]bool {
 				}
 			}
 		}
+		// `mode.CryptBlocks(dst, src)` writes dst
+		if c, ok := n.(*ast.CallExpr); ok {
+			if sel, ok := c.Fun.(*ast.SelectorExpr); ok && sel.Sel.Name == "CryptBlocks" && len(c.Args) == 2 {
+				if id, ok := c.Args[0].(*ast.Ident); ok {
+					m[id.Name] = true
+				}
+			}
+		}
 		// `x.Store.Get(key, p)` writes through p
 		if c, ok := n.(*ast.CallExpr); ok {
 			if sel, ok := c.Fun.(*ast.SelectorExpr); ok && sel.Sel.Name == "Get" && len(c.Args) == 2 {
@@ -1536,6 +1572,7 @@ func (t *trans) function(name string) {
 			bound[n.Name] = true
 		}
 	}
+	var anchorParams []string
 	if sp.inside != "" {
 		var in *ast.IfStmt
 		for _, st := range body {
@@ -1569,6 +1606,9 @@ func (t *trans) function(name string) {
 			if a, ok := s.(*ast.AssignStmt); ok && a.Tok == token.DEFINE {
 				for _, l := range a.Lhs {
 					if id, ok := l.(*ast.Ident); ok && id.Name != "_" {
+						if t.info.Defs[id] == nil {
+							continue // (re-used by this `:=`, not declared by it)
+						}
 						if _, seen := defined[id.Name]; !seen {
 							orderNames = append(orderNames, id.Name)
 						}
@@ -1624,6 +1664,7 @@ func (t *trans) function(name string) {
 				continue
 			}
 			params = append(params, "("+leanIdent(n)+" : "+ty+")")
+			anchorParams = append(anchorParams, n)
 		}
 		body = body[start:]
 	}
@@ -1714,8 +1755,17 @@ func (t *trans) function(name string) {
 	}
 	var bo out
 	t.block(&bo, 1, &ast.BlockStmt{List: body})
-	for _, n := range paramNames {
-		if ctx.mutable[n] {
+	inBody := map[string]bool{}
+	for _, st := range body {
+		ast.Inspect(st, func(n ast.Node) bool {
+			if id, ok := n.(*ast.Ident); ok {
+				inBody[id.Name] = true
+			}
+			return true
+		})
+	}
+	for _, n := range append(paramNames, anchorParams...) {
+		if ctx.mutable[n] && inBody[n] {
 			o.line(1, "let mut "+leanIdent(n)+" := "+leanIdent(n))
 		}
 	}
@@ -1881,6 +1931,7 @@ func translate(repo string, p *pkgFiles, outPath string) {
 	xSpecs := []transSpec{
 		{fn: "appendPadding"},
 		{fn: "stripPadding"},
+		{fn: "Decrypt", recv: "CBC", as: "cbcFraming", anchor: "blockSize := block.BlockSize()"},
 	}
 	xOut := ""
 	if outPath != "" {
@@ -1893,6 +1944,8 @@ func translate(repo string, p *pkgFiles, outPath string) {
 		{fn: "GetTrackedRequests", recv: "CookieRequestTracker"},
 		{fn: "GetTrackedRequest", recv: "CookieRequestTracker"},
 		{fn: "GetSession", recv: "CookieSessionProvider", as: "cookieGetSession"},
+		{fn: "HandleStartAuthFlow", recv: "Middleware", as: "startFlowBinding", anchor: "var binding, bindingLocation string", until: "authReq, err :=", yield: "binding", yieldTy: "String"},
+		{fn: "HandleStartAuthFlow", recv: "Middleware", as: "startFlowLocation", anchor: "var binding, bindingLocation string", until: "authReq, err :=", yield: "bindingLocation", yieldTy: "String"},
 	}
 	spOut := ""
 	if outPath != "" {
@@ -1908,7 +1961,7 @@ func translate(repo string, p *pkgFiles, outPath string) {
 	}
 	translatePkg(parseDir(filepath.Join(repo, "samlidp")), idpOut, "samlidp", "SamlVerif.TransI", idpSpecs, map[string]bool{"validPassword": true},
 		&foreignPkg{name: "saml", path: "github.com/crewjam/saml", pkg: rootPkg, p: p})
-	translatePkg(parseDir(filepath.Join(repo, "samlsp")), spOut, "samlsp", "SamlVerif.TransM", spSpecs, map[string]bool{"ParseResponse": true},
+	translatePkg(parseDir(filepath.Join(repo, "samlsp")), spOut, "samlsp", "SamlVerif.TransM", spSpecs, map[string]bool{"ParseResponse": true, "GetSSOBindingLocation": true},
 		&foreignPkg{name: "saml", path: "github.com/crewjam/saml", pkg: rootPkg, p: p})
 }
 
